@@ -104,6 +104,20 @@ def machine(on_end, expired):
             require(_same(got, self.model), lambda: f"amplitudes {got} differ from the model {self.model}")
             n = len(self.wf)
             require(n >= 1 and n & (n - 1) == 0, lambda: f"length {n} is not a power of two")
+            # every public view reports the entries the object holds now (not a value remembered from an earlier read)
+            amps = must(lambda: self.wf.amplitudes, "amplitudes")
+            view = [x if _is_sym(x) else complex(x) for x in (np.ravel(np.asarray(amps, dtype=object)) if not isinstance(amps, sympy.MatrixBase) else list(amps))]
+            require(_same(view, self.model), lambda: f".amplitudes {view} differ from the entries {self.model}")
+            it = [x if _is_sym(x) else complex(np.ravel(np.asarray(x, dtype=object))[0]) for x in list(iter(self.wf))]
+            require(_same(it, self.model), lambda: f"iterating the wavefunction gives {it}, entries are {self.model}")
+            if any(_is_sym(x) for x in got):
+                probs = list(np.ravel(np.asarray(must(self.wf.get_probabilities, "get_probabilities"), dtype=object)))
+                require(len(probs) == n, "get_probabilities has the wrong length")
+                vals = {sympy.Symbol(nm): complex(0.3 + 0.1 * k, 0.2 - 0.05 * k) for k, nm in enumerate(SYMS)}
+                for pj, xj in zip(probs, got):
+                    want = abs(complex(sympy.sympify(xj).subs(vals))) ** 2
+                    have = complex(sympy.sympify(pj).subs(vals))
+                    require(abs(have - want) <= 1e-9, lambda: f"probability {pj} is not the squared magnitude of the entry {xj}")
             mass = _numeric_mass(got)
             if any(_is_sym(x) for x in got):
                 require(mass <= 1 + 1e-6, lambda: f"numeric part of a symbolic wavefunction has mass {mass} > 1")
